@@ -80,7 +80,8 @@ def followLoop (cnameMap : NameMap) : Nat → Name → List Name → NameMap →
 /-- `follow_cnames`. -/
 def followCnames (rrs : List RR) (target : Name) (qtype : Nat) : Option (Name × NameMap) :=
   let gotMatch := rrs.any (fun rr => rr.name == target && rtypeMatches rr.rtype qtype)
-  let cnameMap := rrs.foldl (fun m rr =>
+  -- a question for the CNAME type itself is answered by the alias record, which is not followed
+  let cnameMap := if qtype == RT_CNAME then ([] : NameMap) else rrs.foldl (fun m rr =>
     match cnameTarget rr with
     | some t => nmInsert m rr.name t
     | none => m) ([] : NameMap)
